@@ -286,6 +286,38 @@ def main(pid, tier):
                     rep.failure('real protocol: %d assignments in the text, %d recovered' % (nassign, len(got)),
                                 {'tag': 'phoenix:real', 'suite': 'phoenix', 'case': {'key': p['key']}})
         reqs.append({'op': 'phx_prot', 'key': p['key'], 'text': p['text']})
+        # ---- the result is a function of the two arguments only: not of earlier calls, and not of
+        # what a caller did to an earlier result
+        if isinstance(got, dict):
+            def outcome(key, text):
+                try:
+                    return [repr(canon_impl(kv)) for kv in extract.parse_phoenix_prot(key, text).items()]
+                except extract.PhoenixParseError:
+                    return 'PARSE-ERROR'
+                except ValueError:
+                    return 'ValueError'
+                except Exception as e:
+                    return 'EXC:' + type(e).__name__
+            first = [repr(x) for x in gotc]
+            got.clear()
+            got['Injected'] = 1
+            again = outcome(p['key'], p['text'])
+            rep.evaluations += 1
+            rep.count('prot/history')
+            if again != first:
+                rep.failure('parse_phoenix_prot(%s, same text) after the caller changed the earlier result: %r, first call gave %r'
+                            % (p['key'], again[:6], first[:6]),
+                            {'tag': 'phoenix:history', 'suite': 'phoenix', 'case': {'key': p['key'], 'text': p['text'],
+                             'history': 'parse; mutate result; parse'}})
+            other = 'MrProtocol' if p['key'] == 'MrPhoenixProtocol' else 'MrPhoenixProtocol'
+            h1 = outcome(other, p['text'])                      # straight after a parse of the same text
+            outcome(p['key'], '### ASCCONV BEGIN ###\nzz = 1\n### ASCCONV END ###')
+            h2 = outcome(other, p['text'])                      # after an unrelated parse
+            if h1 != h2:
+                rep.failure('parse_phoenix_prot(%s, text) depends on the calls before it: %r after parsing the same text as %s, %r after an unrelated parse'
+                            % (other, h1 if isinstance(h1, str) else h1[:6], p['key'], h2 if isinstance(h2, str) else h2[:6]),
+                            {'tag': 'phoenix:history', 'suite': 'phoenix', 'case': {'key': other, 'text': p['text'],
+                             'history': 'parse(%s, text); parse(%s, text)' % (p['key'], other)}})
     co = rep.corr.setdefault('phoenix_prot', {'cases': 0, 'agree': 0, 'disagree': 0, 'skipped': 0})
     for a, p in zip(drv.ask(reqs), prots):
         co['cases'] += 1
